@@ -24,7 +24,9 @@ import (
 // password; the model follows that stricter rule, which the statement allows). For revisions up
 // to 4 a password is its first 32 bytes.
 
-var pwPool = []string{"", "a", "user-pw", "owner-pw", "pässwörd ключ", "0123456789abcdefghijklmnopqrstuvwxyzABCD", "0123456789abcdefghijklmnopqrstuv", "x y", "pw", "pw ", " pw"}
+var pwPool = []string{"", "a", "user-pw", "owner-pw", "pässwörd ключ", "0123456789abcdefghijklmnopqrstuvwxyzABCD", "0123456789abcdefghijklmnopqrstuv", "x y", "pw", "pw ", " pw",
+	// case twins: passwords are case-sensitive under every algorithm (SASLprep does not fold case)
+	"USER-PW", "Pw"}
 
 const wrongSentinel = "definitely-not-a-password-zzz"
 
@@ -56,7 +58,13 @@ func (m *c25Model) String() string {
 	var sb strings.Builder
 	fmt.Fprintf(&sb, "enc=%v ", m.Enc)
 	for _, p := range append(append([]string{}, pwPool...), wrongSentinel+"2") {
-		o, u := !m.Enc || m.same(p, m.OPW), !m.Enc || m.same(p, m.UPW)
+		// the owner attempt is made with (user credential = sentinel, owner credential = p): for revisions
+		// up to 4 an empty owner credential stands for the user credential, i.e. the sentinel
+		po := p
+		if p == "" && m.Enc && !(m.AES && m.Key == 256) {
+			po = wrongSentinel
+		}
+		o, u := !m.Enc || m.same(po, m.OPW), !m.Enc || m.same(p, m.UPW)
 		fmt.Fprintf(&sb, "%q:%s%s ", short(p), flag(o, "O"), flag(u, "U"))
 	}
 	return sb.String()
@@ -88,10 +96,12 @@ type c25Args struct {
 func (m *c25Model) Apply(s Step) bool {
 	var a c25Args
 	json.Unmarshal(s.Args, &a)
+	noOwner := false
 	if s.Op != "encrypt" && a.OPW == "" && !(m.AES && m.Key == 256) {
 		// ISO 32000 (algorithm 3): without an owner password the user password takes its place;
 		// pdfcpu applies the same rule to the credentials it is given
 		a.OPW = a.UPW
+		noOwner = true
 	}
 	switch s.Op {
 	case "encrypt":
@@ -114,6 +124,11 @@ func (m *c25Model) Apply(s Step) bool {
 			return false
 		}
 		m.UPW = a.New
+		if noOwner {
+			// the O entry has to be rebuilt for the new user password and no owner password was given:
+			// algorithm 3 again puts the (new) user password in its place
+			m.OPW = a.New
+		}
 		return true
 	case "change-opw":
 		if !m.Enc || a.New == "" || !m.same(a.OPW, m.OPW) || !m.same(a.UPW, m.UPW) {
@@ -206,7 +221,8 @@ func (c25Store) Valid(mm Model, s Step) bool {
 	case "decrypt":
 		return m.Enc
 	default:
-		return m.Enc && a.OPW != ""
+		// an empty owner credential is in the alphabet only where ISO 32000 defines it (revisions up to 4)
+		return m.Enc && (a.OPW != "" || !(m.AES && m.Key == 256))
 	}
 }
 
@@ -243,10 +259,15 @@ func (c25Store) Gen(rng *rand.Rand, mm Model, aux string) Step {
 		}
 		return mk("encrypt", c25Args{AES: al.aes, Key: al.key, UPW: u, OPW: o})
 	}
-	// An empty owner credential is not generated for change operations: for revisions up to 4 it
-	// means "use the user credential as owner credential", and what the owner password should be
-	// after such a change is not something the statement defines.
+	// An empty owner credential means "use the user credential as owner credential" for revisions up
+	// to 4 (ISO 32000 algorithm 3); it is generated there (often when both passwords are equal, the
+	// case in which it is the right credential), and never for AES-256, where it is simply wrong.
 	credO := func(right string) string {
+		if !(m.AES && m.Key == 256) {
+			if m.same(m.UPW, m.OPW) && rng.IntN(3) == 0 || rng.IntN(12) == 0 {
+				return ""
+			}
+		}
 		for {
 			if c := cred(right); c != "" {
 				return c
@@ -302,7 +323,7 @@ func init() {
 	core.Register(histProp{id: "C25", store: c25Store{}, maxLen: 8, quickN: 60, thoroughN: 3000,
 		rule: "seeded histories of 1-8 steps: encrypt (RC4-40, RC4-128, AES-128, AES-256; user password possibly empty, equal to the owner password, non-ASCII, 40 bytes long or the 32-byte prefix of that), change user password, change owner password, set permissions, decrypt - each issued with right or (one time in four) wrong credentials. After every step the file is opened as owner and as user with every password of the pool and with fresh wrong ones; each attempt must succeed or fail with the wrong-password error and yield no document, exactly as the model says. Faults/crash snapshots per step as for C35. Distinct by (document, step sequence); non-trivial when a step succeeded.",
 		assumptions: []string{
-			"the owner password is never empty when encrypting; for revisions up to 4 an empty owner credential means 'use the user credential' (ISO 32000 algorithm 3); for AES-256 an empty owner credential is simply wrong",
+			"the owner password is never empty when encrypting; for revisions up to 4 an empty owner credential means 'use the user credential' (ISO 32000 algorithm 3), also for the owner password that results from changing the user password with an empty owner credential; for AES-256 an empty owner credential is not generated for change steps",
 			"pdfcpu demands the current user password in addition to the current owner password for password and permission changes; the model adopts this (stricter than the statement, not weaker)",
 			"for security handler revisions up to 4 two passwords are the same if their first 32 bytes are",
 		}})
